@@ -141,6 +141,14 @@ func c04Inputs(g *Gen, n int) [][]byte {
 			add([]byte(doc + `,"tag":[{"type":"Tombstone","deleted":"` + odd[i] + `"}]}`))
 		}
 	}
+	// list members whose ids differ only in a letter that folds to a letter of ANOTHER byte width (KELVIN SIGN and k, LONG S
+	// and s, dotless / dotted i), at the very end of the id and in its middle: the decoder compares the members of a list
+	for _, pair := range [][2]string{{"li\u212a", "lik"}, {"lik", "li\u212a"}, {"ba\u017f", "bas"}, {"s", "\u017f"}, {"\u212a", "k"}, {"\u212ax", "kx"}, {"a\u212a", "ak\u0131"}, {"\u0130", "i"}, {"stra\u00dfe", "strasse"}} {
+		for _, tn := range []string{"Note", "OrderedCollection"} {
+			term := map[string]string{"Note": "tag", "OrderedCollection": "orderedItems"}[tn]
+			add([]byte(`{"type":"` + tn + `","id":"https://example.com/f","` + term + `":[{"id":"https://example.com/` + pair[0] + `"},{"id":"https://example.com/` + pair[1] + `"},"https://example.com/` + pair[0] + `","` + pair[1] + `","` + pair[0] + `"]}`))
+		}
+	}
 	// well-formed documents whose item-valued properties hold degenerate values (empty list, list of nothing, empty
 	// object, null, empty string): what comes back must still be inspectable property by property
 	for _, deg := range []string{"[]", "[null]", "[{}]", "{}", "null", "\"\"", "[[]]", "[\"\"]"} {
